@@ -122,6 +122,21 @@ fn fixed_cases() -> Vec<Case> {
             out.push(Case::new(format!("x := \"X\"\n{}", ctxt.replace('@', lit)), T_FIXED, format!("interpolated literal {} in {:?}", lit, ctxt.replace('\n', " "))));
         }
     }
+    // `\x` followed by every pair of printable ASCII characters (and a line break, a multi-byte
+    // character): two hexadecimal digits make one byte, anything else is a reported error
+    {
+        let mut chars: Vec<String> = (0x20u8..0x7f).map(|b| (b as char).to_string()).collect();
+        chars.push("\n".to_string());
+        chars.push("é".to_string());
+        for a in &chars {
+            for b in &chars {
+                out.push(Case::new(format!("print(\"pre\")\ns := \"\\x{}{}\"\nprint(s->len())\nprint([s < \"\\x40\", s < \"\\x80\", s < \"\\xc0\"])\nprint(s)\n", a, b), T_FIXED, format!("escape \\x{}{} in a plain literal", a, b)));
+                if a.as_bytes()[0].is_ascii_hexdigit() || b.as_bytes()[0].is_ascii_hexdigit() || !a.as_bytes()[0].is_ascii_alphanumeric() {
+                    out.push(Case::new(format!("print(\"pre\")\ns := $\"a\\x{}{}b\"\nprint(s->len())\nprint(s)\n", a, b), T_FIXED, format!("escape \\x{}{} in an interpolated literal", a, b)));
+                }
+            }
+        }
+    }
     // slots are evaluated left to right, each once
     for c in super::evalorder::cases(T_FIXED) {
         if c.meta.contains("$\"") {
